@@ -55,6 +55,8 @@ structure Tx where
   bodyOk : Bool
   /-- hashes of the sub-transactions when the tx is a box -/
   subs : List Nat := []
+  /-- expirations of the sub-transactions -/
+  subExps : List Nat := []
   deriving DecidableEq, Repr
 
 /-- `types.Block`: header + body. The body parts outside the tx list are represented by what the
@@ -133,7 +135,10 @@ def verifySigner (c : Ctx) (b : Block) : Option Reason :=
 /-- one transaction through the two expiry checks of `VerifyTxBody` and the rest of it -/
 def txOk (blockTime : Nat) (tx : Tx) : Bool :=
   !(txExpiredCond (timeStamp := blockTime) (tx_Expiration := tx.exp)) &&
-  !(txTooFarCond (timeStamp := blockTime) (tx_Expiration := tx.exp)) && tx.bodyOk
+  !(txTooFarCond (timeStamp := blockTime) (tx_Expiration := tx.exp)) && tx.bodyOk &&
+  -- `checkBoxTx`: every sub-transaction goes through the same two window checks against the BLOCK time
+  tx.subExps.all (fun e => !(txExpiredCond (timeStamp := blockTime) (tx_Expiration := e)) &&
+    !(txTooFarCond (timeStamp := blockTime) (tx_Expiration := e)))
 
 /-- does a hash occur twice in the list -/
 def hasDup : List Nat → Bool
